@@ -59,7 +59,7 @@ def verify(name, tier, checks_mode, skip_tests=False):
         res["checks"] = {}
         out = tempfile.mkdtemp(prefix="vout-", dir="/tmp")
         for c in checks:
-            e2 = dict(os.environ, VERIF_REPO=wt, VERIF_OUT=out)
+            e2 = dict(os.environ, VERIF_REPO=wt, VERIF_OUT=out, VERIF_STOP_AFTER=os.environ.get("VERIF_STOP_AFTER", "3"))
             r = sh(f"{HERE}/bin/check {c} --tier {tier}", env=e2, cwd=HERE, timeout=7200)
             lines = [ln for ln in r.stdout.splitlines() if ln.startswith("VIOLATION") or ln.startswith("  keys=")]
             res["checks"][c] = {"rc": r.returncode, "first": lines[1][:300] if len(lines) > 1 else (lines[0] if lines else ""),
@@ -69,6 +69,10 @@ def verify(name, tier, checks_mode, skip_tests=False):
     finally:
         sh(f"git -C /repo worktree remove --force {wt}")
         sh(f"rm -rf {wt}")
+    prev = meta.get("verified", {}).get(tier, {})
+    if skip_tests and "tests" not in res and prev.get("tests_ok"):
+        # the suite was run on this very patch against this very /repo commit by an earlier full verification: carry its record over
+        res["tests"], res["tests_ok"], res["tests_from_earlier_run"] = prev.get("tests"), True, True
     meta.setdefault("verified", {})[tier] = res
     json.dump(meta, open(os.path.join(d, "meta.json"), "w"), indent=1)
     return name, res
